@@ -141,8 +141,10 @@ def run_mutants(check: Check, mutants, module, func, repo="/repo", workers=WORKE
     for r in res[1:]:
         if "failed" in r:
             new = [k for k in r["failed"] if k not in base]
-            r = {"mutant": r["mutant"], "killed": bool(new), "n_newly_failed": len(new), "failed_obligations": new[:3],
-                 "undecided_paths": r["undecided_paths"]}
+            und = r["undecided_paths"] > res[0].get("undecided_paths", 0)
+            r = {"mutant": r["mutant"], "killed": bool(new) or und, "n_newly_failed": len(new), "failed_obligations": new[:3],
+                 "undecided_paths": r["undecided_paths"],
+                 "detected_as": "violation" if new else ("undecided (exit 2: needs contract)" if und else "not detected")}
         out.append(r)
     res = out
     check.mutants.extend(res)
